@@ -113,6 +113,30 @@ def crash_key(stderr, rc, exe=None):
     return 'crash:exit%d:%s' % (rc, func or 'unknown')
 
 
+BLOCKED_SECONDS = 25
+
+
+def _proc_cpu_and_sleep(pid):
+    """(cpu seconds of the whole process tree rooted at pid, True if every thread of it is in state S)"""
+    try:
+        tck = os.sysconf('SC_CLK_TCK'); total = 0.0; asleep = True; pids = [pid]
+        try:
+            kids = open('/proc/%d/task/%d/children' % (pid, pid)).read().split()
+            pids += [int(k) for k in kids]
+        except Exception:
+            pass
+        for q in pids:
+            for t in os.listdir('/proc/%d/task' % q):
+                f = open('/proc/%d/task/%s/stat' % (q, t)).read()
+                rest = f[f.rindex(')') + 2:].split()
+                if rest[0] not in ('S',):
+                    asleep = False
+                total += (int(rest[11]) + int(rest[12])) / tck
+        return total, asleep
+    except Exception:
+        return None, False
+
+
 class Runner:
     def __init__(self, prop, tier, seed):
         self.prop, self.tier, self.seed = prop, tier, seed
@@ -129,11 +153,38 @@ class Runner:
         e.update({'VERIF_CASEFILE': casefile, 'VERIF_REPO': build.REPO})
         e.update({k: v for k, v in (env or {}).items() if k != '__wrapper__'})
         wrapper = (env or {}).get('__wrapper__', '').split()     # e.g. valgrind memcheck in front of the harness
-        try:
-            p = subprocess.run(wrapper + [exe] + args, stdout=subprocess.PIPE, stderr=subprocess.PIPE, env=e, timeout=wall or self.wall_timeout, errors='replace')
-            return p.returncode, p.stdout, p.stderr
-        except subprocess.TimeoutExpired as te:
-            return None, (te.stdout or b'').decode(errors='replace') if isinstance(te.stdout, bytes) else (te.stdout or ''), ''
+        # A process whose threads are ALL asleep and which consumes no CPU time for BLOCKED_SECONDS consecutive one-second samples is blocked
+        # for ever (lost wake-up, wait on a job that never completes): a logical criterion (no runnable thread), not a wall-clock deadline,
+        # reported as exit code 78. The generous wall-clock watchdog stays and only ever yields "inconclusive".
+        outf = tempfile.TemporaryFile(dir=self.tmp); errf = tempfile.TemporaryFile(dir=self.tmp)
+        p = subprocess.Popen(wrapper + [exe] + args, stdout=outf, stderr=errf, env=e)
+        deadline = time.time() + (wall or self.wall_timeout)
+        idle = 0; last_cpu = -1.0; rc = None; blocked = False
+        while True:
+            try:
+                rc = p.wait(timeout=1.0)
+                break
+            except subprocess.TimeoutExpired:
+                pass
+            if time.time() > deadline:
+                p.kill(); p.wait(); rc = None
+                break
+            cpu, all_asleep = _proc_cpu_and_sleep(p.pid)
+            if cpu is not None and all_asleep and last_cpu >= 0 and cpu - last_cpu < 0.02:
+                idle += 1
+            else:
+                idle = 0
+            last_cpu = cpu if cpu is not None else last_cpu
+            if idle >= BLOCKED_SECONDS and not wrapper:
+                blocked = True
+                p.kill(); p.wait(); rc = 78
+                break
+        outf.seek(0); errf.seek(0)
+        out = outf.read().decode(errors='replace'); err = errf.read().decode(errors='replace')
+        outf.close(); errf.close()
+        if blocked:
+            err += '\nBLOCKED: no thread runnable and no CPU time consumed for %d s\n' % BLOCKED_SECONDS
+        return rc, out, ('' if rc is None else err)
 
     def run_range(self, res, exe, base_args, lo, hi, env=None, label=None, variant=None, max_crashes=25, wall=None):
         """run cases [lo,hi) in one process; on a crash attribute it to the case in the case file and resume after it"""
@@ -172,10 +223,19 @@ class Runner:
                 break
             if rc == 79:
                 pass   # deadlock/livelock already reported through a VIOL line by the harness
-            elif rc == 77 and hangs >= 3:
+            elif rc in (77, 78) and hangs >= 3:
                 with res.lock:
                     res.inconclusive.append({'case': case, 'why': 'watchdog hit repeatedly in this shard; range %d..%d abandoned after 3 confirmed hangs' % (case, hi), 'harness': label})
                 break
+            elif rc == 78:
+                hangs += 1
+                # every thread asleep, no CPU consumed: re-run alone once before calling it blocked for ever
+                rc2, out2, err2 = self._one(exe, base_args + ['--seed', str(self.seed), '--only', str(case)] + (['--thorough'] if self.thorough else []), env, casefile)
+                with res.lock:
+                    if rc2 == 78:
+                        res.viol.append({'key': 'blocked-forever:%s' % label, 'case': case, 'msg': 'no thread runnable and no CPU time consumed for %d s, twice (call never returns)' % BLOCKED_SECONDS, 'replay': dict(ctx, case=case)})
+                    else:
+                        res.inconclusive.append({'case': case, 'why': 'process looked blocked once, not on re-run', 'harness': label})
             elif rc == 77:
                 hangs += 1
                 # CPU budget exceeded: re-run alone once before calling it a hang
